@@ -280,7 +280,7 @@ RunResult run_in_child(const Plan* plan, const std::string& profile, const std::
 		simheap::Config c;
 		c.place = plan->env.place; c.reuse = plan->env.reuse; c.noise = plan->env.noise;
 		c.layout_seed = plan->env.layout_seed; c.noise_seed = plan->env.noise_seed;
-		c.passthrough = plan->env.passthrough != 0;
+		c.passthrough = plan->env.passthrough != 0 || getenv("VSIM_PASSTHROUGH") != nullptr;    // valgrind tier: real malloc, ticks still counted
 		if (const char* b = getenv("VSIM_TICK_BUDGET")) c.step_tick_budget = strtoull(b, nullptr, 10);
 		simheap::set_budget_handler(budget_exceeded);
 		simheap::begin_run(c);
